@@ -11,9 +11,9 @@ cp /repo/Cargo.lock $wt/; cp -r /repo/target $wt/target
 cd $wt
 git apply $out/patch.diff || { echo "patch does not apply to clean tree" > $log; echo "NOT CONFIRMED" >> $log; exit 1; }
 # install the demo
-(cd $src && git status --porcelain | grep '^??' | awk '{print $2}' | grep -vE '^(target|Cargo.lock)' ) | while read f; do mkdir -p $(dirname $wt/$f); cp -r $src/$f $wt/$f; done
+(cd $src && git status --porcelain -uall | grep '^??' | awk '{print $2}' | grep -vE '^(target|Cargo.lock)' ) | while read f; do mkdir -p $(dirname $wt/$f); cp -r $src/$f $wt/$f; done
 (cd $src && git diff -- src/tests/mod.rs) > $wt/.hook.diff; [ -s $wt/.hook.diff ] && git apply $wt/.hook.diff
-demos=$(cd $wt && git status --porcelain | grep '^??' | awk '{print $2}' | grep -E '\.rs$' | tr '\n' ' ')
+demos=$(cd $wt && git status --porcelain -uall | grep '^??' | awk '{print $2}' | grep -E '\.rs$' | tr '\n' ' ')
 filters=""
 for f in $demos; do b=$(basename $f .rs); case $f in tests/*) filters="$filters --test $b";; src/*) filters="$filters --lib $b";; esac; done
 echo "demo files: $demos ; filters: $filters" > $log
